@@ -1076,6 +1076,8 @@ def remove_redundant_transpose_reduce_ir(graph: ir.Graph) -> None:
             # (Because we are about to change its semantic output from NHWC to NCHW)
             reducer_out_val = _node_output(reducer)
             reducer_consumers = _consumer_nodes(nodes, reducer_out_val)
+            if _value_is_observed_externally(graph, nodes, reducer_out_val):
+                continue
             # We expect exactly one consumer: 'node' (T2)
             if len(reducer_consumers) != 1:
                 if DEBUG:
@@ -1247,6 +1249,11 @@ def remove_redundant_transpose_add_forests_ir(graph: ir.Graph) -> None:
             if match is None:
                 continue
             add_nodes, perm_fwd, _perm_inv, input_transposes, output_transposes = match
+            if any(
+                _value_is_observed_externally(graph, nodes, _node_output(add_node))
+                for add_node in add_nodes
+            ):
+                continue
 
             # Rewrite Add inputs from Transpose(perm_fwd)(x) to x.
             for add_node in add_nodes:
@@ -1415,6 +1422,11 @@ def remove_redundant_transpose_pairs_ir(graph: ir.Graph) -> None:
                 or not _is_inverse_perm(perm_fwd, perm_inv)
             ):
                 continue
+            if any(
+                _value_is_observed_externally(graph, nodes, _node_output(node))
+                for node in add_chain
+            ):
+                continue
 
             # Rewrite: move Add chain to pre-transpose layout (NCHW).
             for node in add_chain:
@@ -1512,6 +1524,11 @@ def remove_redundant_transpose_pairs_ir(graph: ir.Graph) -> None:
                 continue
             if t2_node not in output_transposes:
                 continue
+            if any(
+                _value_is_observed_externally(graph, nodes, _node_output(node))
+                for node in elem_nodes
+            ):
+                continue
 
             # Rewrite: replace transpose outputs feeding elementwise nodes with
             # their pre-transpose sources.
@@ -1522,7 +1539,10 @@ def remove_redundant_transpose_pairs_ir(graph: ir.Graph) -> None:
                 if isinstance(t_out, ir.Value) and isinstance(t_src, ir.Value):
                     trans_in_map[t_out] = t_src
 
-            for node in elem_nodes:
+            # Graph order: a consumer's shape is refreshed after its producer's.
+            for node in nodes:
+                if node not in elem_nodes:
+                    continue
                 ins = _node_inputs(node)
                 for idx, iv in enumerate(ins):
                     if iv in trans_in_map:
@@ -1549,7 +1569,9 @@ def remove_redundant_transpose_pairs_ir(graph: ir.Graph) -> None:
                 t_out = _node_output(t_node)
                 if t_out is None:
                     continue
-                if not _consumer_nodes(live_nodes, t_out):
+                if not _consumer_nodes(
+                    live_nodes, t_out
+                ) and not _value_is_observed_externally(graph, live_nodes, t_out):
                     graph.remove(t_node)
 
             changed = True
@@ -1577,6 +1599,11 @@ def remove_redundant_transpose_pairs_ir(graph: ir.Graph) -> None:
                 continue
             t1_out = _node_output(T1)
             if t1_out is None:
+                continue
+            if _value_is_observed_externally(graph, nodes, t1_out) or any(
+                _value_is_observed_externally(graph, nodes, _node_output(node))
+                for node in elem_nodes
+            ):
                 continue
             ok = True
             for consumer in _consumer_nodes(nodes, t1_out):
@@ -1793,6 +1820,9 @@ def remove_redundant_reshape_pairs_ir(graph: ir.Graph) -> None:
                 if (
                     prod_node.op_type in ALLOWED_ELEMWISE
                     and (getattr(prod_node, "domain", "") or "") == ""
+                    and _elementwise_side_operands_are_scalar(
+                        prod_node, _first_input(prod_node)
+                    )
                 ):
                     allowed_nodes.append(prod_node)
                     v = _first_input(prod_node)
@@ -1822,6 +1852,8 @@ def remove_redundant_reshape_pairs_ir(graph: ir.Graph) -> None:
 
             t1_out = _node_output(T1)
             if t1_out is not None:
+                if _value_is_observed_externally(graph, nodes, t1_out):
+                    safe_chain = False
                 for consumer in _consumer_nodes(nodes, t1_out):
                     if consumer in chain_nodes or consumer is T2:
                         continue
@@ -1833,6 +1865,9 @@ def remove_redundant_reshape_pairs_ir(graph: ir.Graph) -> None:
                     out = _node_output(node)
                     if out is None:
                         continue
+                    if _value_is_observed_externally(graph, nodes, out):
+                        safe_chain = False
+                        break
                     for consumer in _consumer_nodes(nodes, out):
                         if consumer in chain_nodes or consumer is T2:
                             continue
@@ -2227,6 +2262,9 @@ def _elementwise_side_operands_are_scalar(
     node: ir.Node, data_value: Optional[ir.Value]
 ) -> bool:
     """Layout-invariant only if every operand except the data path is a scalar."""
+    if node.op_type == "CastLike":
+        # The second input only supplies the target dtype; it never broadcasts.
+        return True
     for iv in _node_inputs(node):
         if iv is None or iv is data_value:
             continue
